@@ -5,6 +5,17 @@
 import Mhd.Proofs.WSRound
 namespace Mhd.WS
 
+/-- the fields a control frame leaves alone: the message under assembly and the configuration -/
+def SameData (a b : WS) : Prop :=
+  b.dataType = a.dataType ∧ b.dataBuf = a.dataBuf ∧ b.dataSize = a.dataSize ∧ b.dataUtf8 = a.dataUtf8 ∧
+  b.flags = a.flags ∧ b.maxPayload = a.maxPayload ∧ b.allocLimit = a.allocLimit
+
+theorem SameData.refl (a : WS) : SameData a a := ⟨rfl, rfl, rfl, rfl, rfl, rfl, rfl⟩
+
+theorem SameData.trans {a b c : WS} (h1 : SameData a b) (h2 : SameData b c) : SameData a c :=
+  ⟨h2.1.trans h1.1, h2.2.1.trans h1.2.1, h2.2.2.1.trans h1.2.2.1, h2.2.2.2.1.trans h1.2.2.2.1,
+   h2.2.2.2.2.1.trans h1.2.2.2.2.1, h2.2.2.2.2.2.1.trans h1.2.2.2.2.2.1, h2.2.2.2.2.2.2.trans h1.2.2.2.2.2.2⟩
+
 /-- a complete control frame (ping, pong, close; FIN) from `HeaderCompleted` on -/
 theorem ctrl_body_run {ws : WS} (h : Inv ws) (hs : ws.step = 0) (b0 : UInt8) (t : List UInt8) (ht : t.length ≤ 13)
     (key : List UInt8) (v : Nat) (hv : v ≠ 0) (hop : opcodeOf b0 = 8 ∨ opcodeOf b0 = 9 ∨ opcodeOf b0 = 10)
@@ -13,7 +24,8 @@ theorem ctrl_body_run {ws : WS} (h : Inv ws) (hs : ws.step = 0) (b0 : UInt8) (t 
     (hutf : opcodeOf b0 = 8 → 2 < payload.length → checkUtf8 (payload.drop 2) 0 0 = .ok 0)
     (hbody : copyPayload body key 0 = payload) (hne : payload ≠ []) :
     ∃ ws', Run (hdrPhase ws (b0 :: t) 16 payload.length key v) body
-      [(Int.ofNat (opcodeOf b0), some (payload ++ [0]), payload.length)] (.more ws') := by
+      [(Int.ofNat (opcodeOf b0), some (payload ++ [0]), payload.length)] (.more ws') ∧
+      SameData ws ws' ∧ ws'.validity = v ∧ ws'.step = 0 := by
   have hbl : body.length = payload.length := by rw [← hbody, copyPayload_length]
   have hok : OkOp b0 := ⟨by omega, fun _ => hfin⟩
   have hi16 := phase16_inv h hs b0 t ht payload.length key v hok hn (fun hh => by omega)
@@ -66,27 +78,31 @@ theorem ctrl_body_run {ws : WS} (h : Inv ws) (hs : ws.step = 0) (b0 : UInt8) (t 
     rw [htake, e_key, e_idx, Nat.zero_mod, hbody, writeAt_fresh] at hw
     injection hw with hw; subst hw
     rw [htake, e_key, e_idx, Nat.zero_mod, hbody, e_cu, Nat.zero_add, Nat.sub_zero] at hsp
+    have e_sd : SameData ws S18 := by rw [← hS18]; exact ⟨rfl, rfl, rfl, rfl, rfl, rfl, rfl⟩
+    have e_val : S18.validity = v := by rw [← hS18]; rfl
     have hfinal : ∃ ws', iter false S18 (x :: r) =
-        .ret ws' (Int.ofNat (opcodeOf b0)) payload.length (some (payload ++ [0])) payload.length ∧ ws'.step = 0 := by
+        .ret ws' (Int.ofNat (opcodeOf b0)) payload.length (some (payload ++ [0])) payload.length ∧ ws'.step = 0 ∧
+        SameData S18 ws' ∧ ws'.validity = S18.validity := by
       rw [iter_payload _ _ (by simp) (Or.inr e_step), hsp]
       have hpc : ∀ w : WS, w.hdr[0]? = some b0 → w.step = 18 → w.ctrlUtf8 = 0 →
           w.payloadSize = w.payloadIndex → w.ctrlBuf = some (payload ++ [0]) → w.payloadSize = payload.length →
           ∃ ws', payloadFinish false payload.length w =
-            .ret ws' (Int.ofNat (opcodeOf b0)) payload.length (some (payload ++ [0])) payload.length ∧ ws'.step = 0 := by
+            .ret ws' (Int.ofNat (opcodeOf b0)) payload.length (some (payload ++ [0])) payload.length ∧ ws'.step = 0 ∧
+            SameData w ws' ∧ ws'.validity = w.validity := by
         intro w h0 hs18 hu hsz hbf hps
         unfold payloadFinish
         rw [if_pos hsz]
         unfold payloadComplete
         have h17 : ¬ w.step = 17 := by omega
         simp only [h0, hfin, if_true, h17, if_false, hu, ne_eq, not_true_eq_false, and_false, hbf, hps]
-        exact ⟨_, rfl, rfl⟩
+        exact ⟨_, rfl, rfl, ⟨rfl, rfl, rfl, rfl, rfl, rfl, rfl⟩, rfl⟩
       by_cases hc : opcodeOf b0 = 8 ∧ 2 < payload.length
       · rw [if_pos hc, hutf hc.1 hc.2]
         exact hpc _ e_h0 e_step rfl (by show S18.payloadSize = _; rw [e_psz]) rfl e_psz
       · rw [if_neg hc]
         exact hpc _ e_h0 e_step rfl (by show S18.payloadSize = _; rw [e_psz]) rfl e_psz
-    obtain ⟨ws', hfi, hst'⟩ := hfinal
-    refine ⟨ws', ?_⟩
+    obtain ⟨ws', hfi, hst', hsd', hval'⟩ := hfinal
+    refine ⟨ws', ?_, e_sd.trans hsd', by rw [hval', e_val], hst'⟩
     have hq' : sil ws' = 0 := by unfold sil; rw [hst']; simp
     have hev : evOf (Int.ofNat (opcodeOf b0)) (some (payload ++ [0])) payload.length =
         [(Int.ofNat (opcodeOf b0), some (payload ++ [0]), payload.length)] := by
@@ -109,7 +125,8 @@ namespace Mhd.WS
 
 theorem ctrl_body_run_empty {ws : WS} (h : Inv ws) (hs : ws.step = 0) (b0 : UInt8) (t : List UInt8)
     (key : List UInt8) (v : Nat) (hop : opcodeOf b0 = 8 ∨ opcodeOf b0 = 9 ∨ opcodeOf b0 = 10) (hfin : finBit b0 = true) :
-    ∃ ws', Run (hdrPhase ws (b0 :: t) 16 0 key v) [] [(Int.ofNat (opcodeOf b0), none, 0)] (.more ws') := by
+    ∃ ws', Run (hdrPhase ws (b0 :: t) 16 0 key v) [] [(Int.ofNat (opcodeOf b0), none, 0)] (.more ws') ∧
+      SameData ws ws' ∧ ws'.validity = v ∧ ws'.step = 0 := by
   have hi0 : ws.payloadIndex = 0 := h.idx0 (by omega)
   have hne0 : ¬ Int.ofNat (opcodeOf b0) = 0 := by
     intro h0; have : opcodeOf b0 = 0 := by simpa using h0
@@ -121,7 +138,8 @@ theorem ctrl_body_run_empty {ws : WS} (h : Inv ws) (hs : ws.step = 0) (b0 : UInt
     have hps : (hdrPhase ws (b0 :: t) 16 0 key v).payloadSize = 0 := rfl
     rcases hop with h1 | h1 | h1
     all_goals simp only [h1, hps, ne_eq, not_true_eq_false, if_false, Bool.false_eq_true]
-  have htail : ∃ ws', tail false (hdrPhase ws (b0 :: t) 16 0 key v) 0 = .ret ws' (Int.ofNat (opcodeOf b0)) 0 none 0 := by
+  have htail : ∃ ws', tail false (hdrPhase ws (b0 :: t) 16 0 key v) 0 = .ret ws' (Int.ofNat (opcodeOf b0)) 0 none 0 ∧
+      SameData ws ws' ∧ ws'.validity = v ∧ ws'.step = 0 := by
     unfold tail
     rw [if_pos (show (hdrPhase ws (b0 :: t) 16 0 key v).step = 16 from rfl), hhc]
     simp only []
@@ -132,9 +150,9 @@ theorem ctrl_body_run_empty {ws : WS} (h : Inv ws) (hs : ws.step = 0) (b0 : UInt
         some b0 := phase_hdr0 ws b0 t 16 0 key v
     simp only [h0, hfin, if_true, ne_eq, not_true_eq_false, and_false, if_false]
     rw [if_neg (by decide)]
-    exact ⟨_, rfl⟩
-  obtain ⟨ws', ht⟩ := htail
-  refine ⟨ws', Run.done _ _ _ ⟨ws', _, _, _, _, ht, ?_, ?_⟩⟩
+    exact ⟨_, rfl, ⟨rfl, rfl, rfl, rfl, rfl, rfl, rfl⟩, rfl, rfl⟩
+  obtain ⟨ws', ht, hsd, hval, hst⟩ := htail
+  refine ⟨ws', Run.done _ _ _ ⟨ws', _, _, _, _, ht, ?_, ?_⟩, hsd, hval, hst⟩
   · unfold evOf; rw [if_neg hne0]
   · have hnn : ¬ Int.ofNat (opcodeOf b0) < 0 := Int.not_lt.mpr (Int.natCast_nonneg _)
     rw [if_neg hnn]
@@ -149,7 +167,8 @@ theorem roundtrip_ctrl_run (ws : WS) (h : Inv ws) (hs : ws.step = 0) (hv : ws.va
     (hutf : op = 8 → 2 < payload.length → checkUtf8 (payload.drop 2) 0 0 = .ok 0) (m1 m2 m3 m4 : UInt8) (masked : Bool)
     (hm : masked = !ws.isClient) (key : List UInt8) (hkey : key = if masked then [m1, m2, m3, m4] else [0, 0, 0, 0]) :
     ∃ ws', Run ws (frameBytes masked (UInt8.ofNat (0x80 + op)) payload.length key (copyPayload payload key 0))
-      [(Int.ofNat op, plOf payload, payload.length)] (.more ws') := by
+      [(Int.ofNat op, plOf payload, payload.length)] (.more ws') ∧
+      SameData ws ws' ∧ ws'.validity = (if op = 8 then 2 else ws.validity) ∧ ws'.step = 0 := by
   have hl := h.hdrLen
   have hb0 : (UInt8.ofNat (0x80 + op)).toNat = 0x80 + op := by
     rw [UInt8.toNat_ofNat']; omega
@@ -158,6 +177,7 @@ theorem roundtrip_ctrl_run (ws : WS) (h : Inv ws) (hs : ws.step = 0) (hv : ws.va
   have hfin : finBit (UInt8.ofNat (0x80 + op)) = true := by unfold finBit; rw [hb0]; simp
   generalize hB0 : UInt8.ofNat (0x80 + op) = b0 at *
   generalize hv' : (if opcodeOf b0 = 8 then 2 else ws.validity) = v'
+  have hv'' : v' = if op = 8 then 2 else ws.validity := by rw [← hv', hopc]
   have hv'0 : v' ≠ 0 := by rw [← hv']; split <;> omega
   have hwire : frameBytes masked b0 payload.length key (copyPayload payload key 0) =
       b0 :: (hdrTail masked payload.length [m1, m2, m3, m4] ++ copyPayload payload key 0) := by
@@ -173,9 +193,9 @@ theorem roundtrip_ctrl_run (ws : WS) (h : Inv ws) (hs : ws.step = 0) (hv : ws.va
     exact stepStart_ctrl ws ws.payloadSize ws.maskKey ws.validity b0 hl hv hrsv hfin (by rw [hopc]; exact hop)
   by_cases hne : payload = []
   · subst hne
-    obtain ⟨ws', hrun⟩ := ctrl_body_run_empty h hs b0 (hdrTail masked 0 [m1, m2, m3, m4]) key v'
+    obtain ⟨ws', hrun, hsd, hval, hst⟩ := ctrl_body_run_empty h hs b0 (hdrTail masked 0 [m1, m2, m3, m4]) key v'
       (by rw [hopc]; exact hop) hfin
-    refine ⟨ws', run_step hstart ?_⟩
+    refine ⟨ws', run_step hstart ?_, hsd, by rw [hval, hv''], hst⟩
     have hce : copyPayload ([] : List UInt8) key 0 = [] := by unfold copyPayload xorMask; simp
     rw [hce]
     apply header_run ws b0 0 ws.payloadSize ws.maskKey v' m1 m2 m3 m4 masked hm hl hv'0 (by omega)
@@ -183,10 +203,10 @@ theorem roundtrip_ctrl_run (ws : WS) (h : Inv ws) (hs : ws.step = 0) (hv : ws.va
     rw [hopc] at hrun
     subst hkey
     simpa [plOf] using hrun
-  · obtain ⟨ws', hrun⟩ := ctrl_body_run h hs b0 (hdrTail masked payload.length [m1, m2, m3, m4])
+  · obtain ⟨ws', hrun, hsd, hval, hst⟩ := ctrl_body_run h hs b0 (hdrTail masked payload.length [m1, m2, m3, m4])
       (hdrTail_length_le _ _ _ _ _ _) key v' hv'0 (by rw [hopc]; exact hop) hfin payload
       (copyPayload payload key 0) (by omega) hal (by rw [hopc]; exact hutf) (copyPayload_involutive _ _ _) hne
-    refine ⟨ws', run_step hstart ?_⟩
+    refine ⟨ws', run_step hstart ?_, hsd, by rw [hval, hv''], hst⟩
     apply header_run ws b0 payload.length ws.payloadSize ws.maskKey v' m1 m2 m3 m4 masked hm hl hv'0 (by omega)
       (fun _ => hn) (by rw [hopc]; exact hclose) hmax
     rw [hopc] at hrun
